@@ -831,6 +831,12 @@ def job_c05(job):
         lst.close()
         return res
     res['tablenames'] = list(lst.table_names)
+    # modelling assumption: every file position the reader remembers is the start of a line (the model's positions are
+    # line numbers); read from the private list only to report it
+    fp = getattr(lst, '_fullpos', None)
+    if fp is not None:
+        st['positions-remembered'] += len(fp)
+        st['positions-at-line-start'] += sum(1 for q in fp if q == 0 or data[q - 1:q] == b'\n')
     indices = pick_indices(n, job.get('indices', 'some'), rng)
     base_views = {}
     for i in indices:
@@ -1142,13 +1148,14 @@ THEOREMS = ['Props.C05.' + t for t in ['binding_is_modelled', 'column_boundaries
                                     'field_beyond_row_is_zero', 'line_terminator_ignored', 'row_format_decidable', 'icolumn_negative_first_real_witness',
                                     'rows_keyed_by_printed_index', 'rows_in_index_order', 'skip_lands_where_read_lands', 'autough2_row_split_correct',
                                     'autough2_adjacent_numbers_merge', 'addressing_agrees', 'reversed_key_row']]
-LEVEL_TEXT = ('Proof: 13 Lean theorems about the row layer of the reader and listingtable: parse_table_line infers exactly the field starts from a line of '
+LEVEL_TEXT = ('Proof: 16 Lean theorems about the row layer of the reader and listingtable: parse_table_line infers exactly the field starts from a line of '
               'right-aligned number fields (column_boundaries_correct; its side conditions are decided on the longest line of every table by a '
               'procedure proved sound, row_format_decidable); read_table_line_TOUGH2 never raises, cell k is fortran_float of columns [b_k,b_k+1) and '
               'blank / missing trailing cells are 0.0 (row_slicing_correct + field lemmas re-using C16); the AUTOUGH2 whitespace split returns exactly '
               'the printed numbers and merges numbers printed without a blank; rows are kept one per printed index in index order; row-index, '
               'row-name and column-name addressing agree and a reversed connection name gives the negated row. No sorry. Partial: the composition '
-              'for whole files (cells_equal_printed) and skip-table independence are not proved; they are covered by the executable whole-file Lean model of '
+              'for whole files (cells_equal_printed) and skip-table independence beyond the file position (skip_lands_where_read_lands) are not proved; '
+              'the per-simulator method binding is regenerated from the source on every run and the model dispatches through it (binding_is_modelled); the rest is covered by the executable whole-file Lean model of '
               't2listing (all six simulators) compared with the real reader cell for cell (bit-equal doubles) on all 37 shipped files at every result '
               'time and on value-perturbed copies, and by an independent tokenizer oracle on the printed rows.')
 LEVEL_NOTE = ('Trusted: Lean kernel (+propext, Classical.choice, Quot.sound); the hand-written models (tied by the correspondence, not proved equal to the Python); '
@@ -1277,6 +1284,8 @@ def run(ctx):
         if j['vspec'].get('kind') != 'orig' and not isinstance(r, Timeout) and not r.get('rejected'):
             acc2[j['rel']] += 1
     res.count('min-accepted-variants-per-file', min([acc2[rel] for rel, _ in corpus()] or [0]))
+    res.hyp['file positions remembered by the reader are line starts (the model abstracts byte offsets to line numbers)'] = \
+        [res.stats.get('positions-at-line-start', 0), res.stats.get('positions-remembered', 0)]
     res.facet('oracle_tables')['cases'] = res.stats.get('tables-checked', 0)
     if ctx.model_ok:
         correspond(ctx, res, jobs, results)
